@@ -12,10 +12,15 @@ var DiskTimeframes = []string{"1Sec", "10Sec", "30Sec", "1Min", "5Min", "15Min",
 // GenTF draws a timeframe; the second-level ones (huge sparse year files whose
 // full scan is slow) get a lower weight.
 func GenTF(t *rapid.T) string {
-	if rapid.IntRange(0, 9).Draw(t, "tfclass") == 0 {
+	switch c := rapid.IntRange(0, 99).Draw(t, "tfclass"); {
+	case c < 6:
 		return rapid.SampledFrom(DiskTimeframes[:3]).Draw(t, "tf")
+	case c < 16:
+		return "1Min"
+	case c < 28:
+		return "5Min"
 	}
-	return rapid.SampledFrom(DiskTimeframes[3:]).Draw(t, "tf")
+	return rapid.SampledFrom(DiskTimeframes[5:]).Draw(t, "tf")
 }
 
 func TFDuration(tf string) time.Duration {
